@@ -136,6 +136,8 @@ def directed_pairs():
         ('client restricts versions only', 'rsa', {'versions': [(3, 3), (3, 2)]}, {}),
         ('client minVersion above entries of its versions; server prefers old', 'rsa',
          {'minVersion': (3, 3)}, {'versions': [(3, 2), (3, 3)]}),
+        ('client TLS 1.3 only (minVersion=(3,4)), everything else default', 'rsa', {'minVersion': (3, 4)}, {}),
+        ('server TLS 1.3 only (minVersion=(3,4)), everything else default', 'rsa', {}, {'minVersion': (3, 4)}),
         ('client requires EMS, TLS 1.3', 'rsa', {'requireExtendedMasterSecret': True}, {}),
         ('client requires EMS, TLS 1.2', 'rsa', {'requireExtendedMasterSecret': True, 'maxVersion': (3, 3)}, {}),
         ('small record_size_limit + HelloRetryRequest', 'rsa', {'keyShares': []}, {'record_size_limit': 64}),
